@@ -1,3 +1,4 @@
+import QuillModel.Backend.FlushGate
 import QuillModel.Backend.FlushStep
 import QuillModel.Backend.ConsProofsStep
 import QuillModel.Backend.SinkBack
@@ -103,6 +104,7 @@ theorem unfl_false_split (sid : Nat) (a b : List Ev) (e : Ev) (h : unfl sid (a +
 
 structure CI (fz : Bool) (s : BSt) : Prop where
   cfgF : s.cfg.flushInvalidatedLoggers = true
+  cfgE : s.cfg.flushInterval = 0 ∨ s.cfg.flushBeforeLoggerErase = true
   act : ∀ sid, unfl sid s.log = true → ∃ i, (s.lgOf i).erased = false ∧ sid ∈ (s.lgOf i).sinks
   fzc : fz = true → ∀ sid, unfl sid s.log = false
   fl1 : ∀ fn ∈ s.flagLog, fn.2 ≤ s.log.length ∧ ∀ sid, unfl sid (s.log.drop (s.log.length - fn.2)) = false
@@ -123,7 +125,7 @@ theorem CI.grow {fz fz' : Bool} {s s' : BSt} (h : CI fz s) (hcfg : s'.cfg = s.cf
     (hw : ∀ fn ∈ s.flagLog, ∀ i pre st more, (s.th i).popped = pre ++ st :: more → st.kind = .flush fn.1 →
         ∀ r ∈ pre, PA.isOrd r = true → ∀ sid, PA.wcount new sid r.id = 0) : CI fz' s' := by
   have hlen : s'.log.length = new.length + s.log.length := by rw [hlog, List.length_append]
-  refine ⟨by rw [hcfg]; exact h.cfgF, hact, hfz, ?_, ?_, ?_, ?_⟩
+  refine ⟨by rw [hcfg]; exact h.cfgF, by rw [hcfg]; exact h.cfgE, hact, hfz, ?_, ?_, ?_, ?_⟩
   · intro fn hfn
     rw [hfl] at hfn
     obtain ⟨h1, h2⟩ := h.fl1 fn hfn
@@ -755,7 +757,7 @@ theorem CI.erase {s : BSt} (h : CI true s) (i : Nat) : CI true (s.setLg i (fun l
 /-- a flag is raised while no sink is unflushed -/
 theorem CI.raise {s : BSt} (h : CI true s) (f : Nat) (rf : List (Nat × Nat)) :
     CI true { s with flags := f :: s.flags, flagLog := (f, s.log.length) :: s.flagLog, removalFlags := rf } := by
-  refine ⟨h.cfgF, h.act, h.fzc, ?_, ?_, ?_, ?_⟩
+  refine ⟨h.cfgF, h.cfgE, h.act, h.fzc, ?_, ?_, ?_, ?_⟩
   · intro fn hfn
     rcases List.mem_cons.mp hfn with rfl | hfn
     · refine ⟨Nat.le_refl _, fun sid => ?_⟩
@@ -802,6 +804,56 @@ theorem CI.cleanupLoggers (hrel : ∀ s k, FRel s (inj s k)) {s : BSt} (h : CI t
       split
       · exact hb.raise _ _
       · exact hb
+
+/-- the configuration is untouched by the gated idle flush -/
+theorem flushGate_cfg (hrel : ∀ s k, FRel s (inj s k)) (s : BSt) (n : Nat) : (Backend.flushGate inj s n).cfg = s.cfg := by
+  rcases flushGate_cases inj s n with ⟨_, e⟩ | ⟨_, e⟩ | ⟨_, e⟩ <;> rw [e]
+  · obtain ⟨a, c, d, hsh⟩ := sol_flushSinks s; rw [hsh]
+  · exact (hrel s 7).cfg
+  · obtain ⟨a, c, d, hsh⟩ := sol_flushSinks { inj s 7 with lastFlush := (inj s 7).now }; rw [hsh]; exact (hrel s 7).cfg
+
+/-- the idle flush behind `sink_min_flush_interval`: with interval 0 nothing is left unflushed; otherwise the invariant is
+    merely kept (whether or not the gate opened) -/
+theorem CI.flushGate (hrel : ∀ s k, FRel s (inj s k)) {fz : Bool} {s : BSt} (h : CI fz s) :
+    ∃ fz', CI fz' (Backend.flushGate inj s s.cfg.flushInterval) ∧
+      ((Backend.flushGate inj s s.cfg.flushInterval).cfg.flushInterval = 0 → fz' = true) := by
+  by_cases h0 : s.cfg.flushInterval = 0
+  · rw [h0, flushGate_zero]; exact ⟨true, h.flushSinks, fun _ => rfl⟩
+  · refine ⟨false, ?_, fun hc => absurd (by rw [flushGate_cfg hrel] at hc; exact hc) h0⟩
+    rcases flushGate_cases inj s s.cfg.flushInterval with ⟨e0, _⟩ | ⟨_, e⟩ | ⟨_, e⟩
+    · exact absurd e0 h0
+    · rw [e]; exact (h.frel (hrel s 7)).weaken
+    · rw [e]
+      have h1 : CI fz { inj s 7 with lastFlush := (inj s 7).now } :=
+        (h.frel (hrel s 7)).frel (FRel.ofEq rfl rfl rfl rfl rfl rfl)
+      exact h1.flushSinks.weaken
+
+/-- **the erase is preceded by a flush** (`_cleanup_invalidated_loggers` with its head flush, F33): either nothing was
+    unflushed on entry (interval 0: the idle pass has just flushed; `_exit`: the final flush), or the head of the clean-up
+    flushes every sink still reachable before any logger is erased -/
+theorem CI.eraseTail (hrel : ∀ s k, FRel s (inj s k)) {fz : Bool} {s : BSt} (h : CI fz s)
+    (hz : s.cfg.flushInterval = 0 → fz = true) :
+    CI false (Backend.cleanupLoggers inj (Backend.preEraseFlush s)) := by
+  unfold Backend.preEraseFlush
+  by_cases hE : s.cfg.flushBeforeLoggerErase = true
+  · by_cases hI : s.hasInvalidLoggers = true
+    · rw [hE, hI]
+      simp only [Bool.and_self, if_true]
+      exact (h.flushSinks.cleanupLoggers hrel).weaken
+    · have hI' : s.hasInvalidLoggers = false := by simpa using hI
+      rw [hI']
+      simp only [Bool.and_false, Bool.false_eq_true, if_false]
+      unfold Backend.cleanupLoggers
+      rw [hI']
+      simp only [Bool.not_false, if_true]
+      exact h.weaken
+  · have h0 := h.cfgE.resolve_right hE
+    have hfz := hz h0
+    subst hfz
+    have hE' : s.cfg.flushBeforeLoggerErase = false := by simpa using hE
+    rw [hE']
+    simp only [Bool.false_and, Bool.false_eq_true, if_false]
+    exact (h.cleanupLoggers hrel).weaken
 
 /-! ### popping -/
 
@@ -857,7 +909,7 @@ theorem append_singleton_split {α} {l pre more : List α} {x st : α} (h : l ++
 theorem CI.popTh {fz : Bool} {s : BSt} (h : CI fz s) (j : Nat) (x : Stmt) (rest : List Stmt)
     (hx : ∀ fn ∈ s.flagLog, x.kind ≠ .flush fn.1) : CI fz (plPop s j x rest) := by
   unfold plPop
-  refine ⟨h.cfgF, h.act, h.fzc, h.fl1, h.fl2, h.fl3, ?_⟩
+  refine ⟨h.cfgF, h.cfgE, h.act, h.fzc, h.fl1, h.fl2, h.fl3, ?_⟩
   intro fn hfn i pre st more hp hk r hr ho sid
   have hth : ({ s.setTh j (fun t => { t with buf := rest, popped := t.popped ++ [x] }) with popLog := x :: s.popLog } : BSt).th i =
       (s.setTh j (fun t => { t with buf := rest, popped := t.popped ++ [x] })).th i := rfl
@@ -1094,11 +1146,13 @@ theorem CI.poll (hj : InjX inj) {fz : Bool} {s : BSt} (h : CI fz s) (hx : XS s) 
     · exact h1.processLowest hj.r x1.ext
     · exact CI.batchLoop hj _ _ _ h1 x1
   · have h5 : CI fz (inj s1 5) := h1.frel (hj.r _ 5)
-    have h6 : CI true (Backend.flushSinks (inj s1 5)) := h5.flushSinks
-    have h7 : CI true (Backend.checkFailures inj (Backend.flushSinks (inj s1 5))) := h6.frel (frel_checkFailures hj.r _)
+    obtain ⟨fz6, h6, hz6⟩ := h5.flushGate hj.r
+    have h7 := h6.frel (frel_checkFailures hj.r _)
     have h8 := h7.frel (frel_allEmpty _)
     split
-    · exact ((h8.frel (frel_cleanupContexts _)).cleanupLoggers hj.r).weaken
+    · refine (h8.frel (frel_cleanupContexts _)).eraseTail hj.r (fun h0 => hz6 ?_)
+      rw [← ((frel_checkFailures hj.r _).trans ((frel_allEmpty _).trans (frel_cleanupContexts _))).cfg]
+      exact h0
     · exact h8.weaken
 
 theorem XS.poll (hj : InjX inj) {s : BSt} (h : XS s) : XS (Backend.poll inj s) :=
@@ -1126,7 +1180,7 @@ theorem CI.exitLoop (hj : InjX inj) (tick fuel : Nat) : ∀ (s : BSt) (fz : Bool
     split
     · have h2 : CI true (Backend.flushSinks (Backend.checkFailures inj (Backend.allEmpty s).1)) :=
         (h1.frel (frel_checkFailures hj.r _)).flushSinks
-      exact ((h2.frel (frel_cleanupContexts _)).cleanupLoggers hj.r).weaken
+      exact (h2.frel (frel_cleanupContexts _)).eraseTail hj.r (fun _ => rfl)
     · have h2 : CI fz { (Backend.allEmpty s).1 with now := (Backend.allEmpty s).1.now + tick } :=
         h1.frel (FRel.ofEq rfl rfl rfl rfl rfl rfl)
       have x2 := x1.clock ((Backend.allEmpty s).1.now + tick)
@@ -1186,13 +1240,15 @@ open Backend.PB
 
 /-- a freshly started system, for the flush contract: the initial states of the other bundles (no thread, no event,
     `PC.FInv`: names resolve, sinks alive and distinct, no backtrace storage — every `LoggerFresh` state), no flag raised or logged yet, and the F12 repair in
-    force (the flush covers loggers marked invalid) -/
+    force (the flush covers loggers marked invalid), and — F33 — either `sink_min_flush_interval = 0` (the idle pass that
+    erases a logger has just flushed) or the clean-up flushes before it erases (`flushBeforeLoggerErase`, the repair) -/
 structure StartC (s : BSt) : Prop where
   a : PA.Fresh s
   c : PC.FInv s
   f : StartF s
   flagLog : s.flagLog = []
   f12 : s.cfg.flushInvalidatedLoggers = true
+  f33 : s.cfg.flushInterval = 0 ∨ s.cfg.flushBeforeLoggerErase = true
 
 namespace PB
 
@@ -1200,7 +1256,7 @@ theorem start_TI {s : BSt} (h : StartC s) : TI s := by
   have hinv := h.a.inv
   refine ⟨⟨⟨⟨hinv.a, hinv.b⟩, ⟨hinv.w, hinv.p⟩⟩, h.c, ⟨[], start_FI h.f⟩⟩, ?_⟩
   have hlog : s.log = [] := h.a.log
-  refine ⟨h.f12, ?_, (fun hf => by cases hf), ?_, ?_, ?_, ?_⟩
+  refine ⟨h.f12, h.f33, ?_, (fun hf => by cases hf), ?_, ?_, ?_, ?_⟩
   · intro sid hs; rw [hlog] at hs; cases hs
   · intro fn hfn; rw [h.flagLog] at hfn; cases hfn
   · intro fn hfn; rw [h.flagLog] at hfn; cases hfn
